@@ -83,61 +83,60 @@ func (sl *Slicer) calleeOfInstr(ci ssa.CallInstruction) *ssa.Function {
 // declare edges on which the obligation is met by an axiom.
 // Returns the blocks of a counter-example path, or nil.
 func pathToReturnAvoiding(from ssa.Instruction, done func(ssa.Instruction) bool, skipEdge func(b *ssa.BasicBlock, succ int) bool) []*ssa.BasicBlock {
-	fn := from.Parent()
-	start := from.Block()
-	idx := instrIndex(from)
+	// The search runs over the control flow of from's function extended by its transparent helpers
+	// (inline.go): a call to such a helper enters the helper's body, a Return of the helper continues
+	// after its only call site.  A Return of any other function ends a counter-example path.
 	type state struct {
 		b    *ssa.BasicBlock
+		idx  int
 		path []*ssa.BasicBlock
 	}
-	visited := map[*ssa.BasicBlock]bool{}
-	// scan the rest of the start block
-	scan := func(b *ssa.BasicBlock, fromIdx int) (met bool, isReturn bool) {
-		for k := fromIdx; k < len(b.Instrs); k++ {
-			in := b.Instrs[k]
-			if done(in) {
-				return true, false
-			}
-			if _, ok := in.(*ssa.Return); ok {
-				return false, true
-			}
-		}
-		return false, false
+	type key struct {
+		b   *ssa.BasicBlock
+		idx int
 	}
-	met, isRet := scan(start, idx+1)
-	if met {
-		return nil
-	}
-	if isRet {
-		return []*ssa.BasicBlock{start}
-	}
-	var stack []state
-	for k, s := range start.Succs {
-		if skipEdge != nil && skipEdge(start, k) {
-			continue
-		}
-		stack = append(stack, state{s, []*ssa.BasicBlock{start, s}})
-	}
+	visited := map[key]bool{}
+	stack := []state{{from.Block(), instrIndex(from) + 1, []*ssa.BasicBlock{from.Block()}}}
+	root := from.Parent()
 	for len(stack) > 0 {
 		st := stack[len(stack)-1]
 		stack = stack[:len(stack)-1]
-		if visited[st.b] || st.b == fn.Recover {
+		k := key{st.b, st.idx}
+		if visited[k] || st.b == st.b.Parent().Recover {
 			continue
 		}
-		visited[st.b] = true
-		met, isRet := scan(st.b, 0)
-		if met {
+		visited[k] = true
+		fn := st.b.Parent()
+		met, ended := false, false
+		for i := st.idx; i < len(st.b.Instrs); i++ {
+			in := st.b.Instrs[i]
+			if done(in) {
+				met = true
+				break
+			}
+			if g := isHelperCall(in); g != nil && len(g.Blocks) > 0 {
+				stack = append(stack, state{g.Blocks[0], 0, append(append([]*ssa.BasicBlock(nil), st.path...), g.Blocks[0])})
+				ended = true
+				break
+			}
+			if _, ok := in.(*ssa.Return); ok {
+				if c := helperCall(fn); c != nil && fn != root {
+					// back to the caller, right after the call
+					stack = append(stack, state{c.Block(), instrIndex(c) + 1, append(append([]*ssa.BasicBlock(nil), st.path...), c.Block())})
+					ended = true
+					break
+				}
+				return st.path
+			}
+		}
+		if met || ended {
 			continue
 		}
-		if isRet {
-			return st.path
-		}
-		for k, s := range st.b.Succs {
-			if skipEdge != nil && skipEdge(st.b, k) {
+		for j, s := range st.b.Succs {
+			if skipEdge != nil && skipEdge(st.b, j) {
 				continue
 			}
-			np := append(append([]*ssa.BasicBlock(nil), st.path...), s)
-			stack = append(stack, state{s, np})
+			stack = append(stack, state{s, 0, append(append([]*ssa.BasicBlock(nil), st.path...), s)})
 		}
 	}
 	return nil
@@ -444,4 +443,40 @@ func blockPos(b *ssa.BasicBlock) token.Pos {
 		}
 	}
 	return token.NoPos
+}
+
+// calleeMustPass: every path through g from its entry to a return passes an instruction satisfying
+// pred (directly or inside a callee that must pass one).  A context-free summary, valid for any caller.
+func calleeMustPass(g *ssa.Function, pred func(ssa.Instruction) bool, depth int) bool {
+	if g == nil || len(g.Blocks) == 0 || len(g.Blocks[0].Instrs) == 0 || depth > 3 {
+		return false
+	}
+	first := g.Blocks[0].Instrs[0]
+	d := withCallees(pred, depth+1)
+	if d(first) {
+		return true
+	}
+	return pathToReturnAvoiding(first, d, nil) == nil
+}
+
+// withCallees extends an event predicate to calls of own functions that must pass the event.
+func withCallees(pred func(ssa.Instruction) bool, depth int) func(ssa.Instruction) bool {
+	return func(in ssa.Instruction) bool {
+		if pred(in) {
+			return true
+		}
+		if c, ok := in.(*ssa.Call); ok {
+			if g := c.Call.StaticCallee(); g != nil && g.Blocks != nil && ownPkgPath(pkgPathOf(g)) && isHelperCall(in) == nil {
+				return calleeMustPass(g, pred, depth)
+			}
+		}
+		return false
+	}
+}
+
+// passesOnEdge: every path that leaves block b through successor succ reaches, before any return, an
+// instruction satisfying pred (callee summaries included).
+func passesOnEdge(b *ssa.BasicBlock, succ int, pred func(ssa.Instruction) bool) bool {
+	last := b.Instrs[len(b.Instrs)-1]
+	return pathToReturnAvoiding(last, withCallees(pred, 0), func(x *ssa.BasicBlock, k int) bool { return x == b && k != succ }) == nil
 }
